@@ -165,7 +165,9 @@ var litSinks = []litSink{
 	{"text (braces not padded)", "normal", false, func(x string) string { return "\t<p>{" + x + "}</p><p>after</p>\n" },
 		func(s string) *node { return frag(E("p", nil, S(s)), after) }},
 	{"text", "normal, nested", false, func(x string) string { return "\t<ul><li>{ " + x + " }</li><li><b>{ " + x + " }</b>!</li></ul>\n" },
-		func(s string) *node { return frag(E("ul", nil, E("li", nil, S(s)), E("li", nil, E("b", nil, S(s)), T("!")))) }},
+		func(s string) *node {
+			return frag(E("ul", nil, E("li", nil, S(s)), E("li", nil, E("b", nil, S(s)), T("!"))))
+		}},
 	{"text", "template top level", false, func(x string) string { return "\t{ " + x + " }<p>after</p>\n" },
 		func(s string) *node { return frag(S(s), after) }},
 	{"text", "rcdata title", false, func(x string) string { return "\t<title>t { " + x + " } u</title><p>after</p>\n" },
@@ -191,8 +193,12 @@ var litSinks = []litSink{
 		func(s string) *node { return frag(V("input", A{C("type", "text"), D("value", s)}), after) }},
 	{"string-attr", "rcdata textarea", false, func(x string) string { return "\t<textarea placeholder={ " + x + " }>t</textarea><p>after</p>\n" },
 		func(s string) *node { return frag(E("textarea", A{D("placeholder", s)}, T("t")), after) }},
-	{"string-attr + text", "normal", false, func(x string) string { return "\t<div title=\"a & b\" data-x={ " + x + " } hidden>{ " + x + " }</div><p>after</p>\n" },
-		func(s string) *node { return frag(E("div", A{C("title", "a & b"), D("data-x", s), B("hidden")}, S(s)), after) }},
+	{"string-attr + text", "normal", false, func(x string) string {
+		return "\t<div title=\"a & b\" data-x={ " + x + " } hidden>{ " + x + " }</div><p>after</p>\n"
+	},
+		func(s string) *node {
+			return frag(E("div", A{C("title", "a & b"), D("data-x", s), B("hidden")}, S(s)), after)
+		}},
 	{"conditional-attr", "normal", false, func(x string) string {
 		return "\t<div\n\t\tid=\"i\"\n\t\tif true {\n\t\t\tdata-a={ " + x + " }\n\t\t} else {\n\t\t\tdata-b={ " + x + " }\n\t\t}\n\t>x</div><p>after</p>\n"
 	}, func(s string) *node {
@@ -206,8 +212,12 @@ var litSinks = []litSink{
 		return "\t<form action={ templ.SafeURL(" + x + ") }><input name=\"q\"/></form><p>after</p>\n"
 	}, func(s string) *node { return frag(E("form", A{D("action", s)}, V("input", A{C("name", "q")})), after) }},
 	{"class", "normal", false, func(x string) string { return "\t<div class={ " + x + " }>x</div><p>after</p>\n" },
-		func(s string) *node { return frag(E("div", A{D("class", templ.CSSClasses([]any{s}).String())}, T("x")), after) }},
-	{"class list", "normal", false, func(x string) string { return "\t<div class={ \"a\", " + x + ", templ.KV(" + x + ", true) }>x</div><p>after</p>\n" },
+		func(s string) *node {
+			return frag(E("div", A{D("class", templ.CSSClasses([]any{s}).String())}, T("x")), after)
+		}},
+	{"class list", "normal", false, func(x string) string {
+		return "\t<div class={ \"a\", " + x + ", templ.KV(" + x + ", true) }>x</div><p>after</p>\n"
+	},
 		func(s string) *node {
 			return frag(E("div", A{D("class", templ.CSSClasses([]any{"a", s, templ.KV(s, true)}).String())}, T("x")), after)
 		}},
@@ -215,6 +225,16 @@ var litSinks = []litSink{
 		func(s string) *node {
 			return frag(E("div", A{Y("s", strings.TrimSpace(safehtml.SanitizeStyleValue(s)), b01s(s == ""))}, T("x")), after)
 		}},
+	// an attribute NAME in another letter case than the one a typed sink is keyed by is a plain string attribute (the generator
+	// dispatches on the exact spelling): the value goes through the escaper like any other
+	{"string attribute named Style (not the style sink)", "normal", false, func(x string) string { return "\t<div Style={ " + x + " }>x</div><p>after</p>\n" },
+		func(s string) *node { return frag(E("div", A{D("Style", s)}, T("x")), after) }},
+	{"string attribute named STYLE under a conditional attribute", "normal", false, func(x string) string {
+		return "\t<div\n\t\tif true {\n\t\t\tSTYLE={ " + x + " }\n\t\t}\n\t>x</div><p>after</p>\n"
+	}, func(s string) *node { return frag(E("div", A{AI(true, A{D("STYLE", s)}, nil)}, T("x")), after) }},
+	{"string attributes named Class / ID / Title", "void", false, func(x string) string {
+		return "\t<input CLASS={ " + x + " } Id={ " + x + " } TITLE={ " + x + " }/><p>after</p>\n"
+	}, func(s string) *node { return frag(V("input", A{D("CLASS", s), D("Id", s), D("TITLE", s)}), after) }},
 	{"spread", "normal", false, func(x string) string {
 		return "\t<div { templ.Attributes{\"data-a\": " + x + ", \"title\": " + x + "}... }>x</div><p>after</p>\n"
 	}, func(s string) *node { return frag(E("div", A{M("data-a", "s"+s, "title", "s"+s)}, T("x")), after) }},
